@@ -39,6 +39,7 @@ class Check:
         self.notes = []
         self.analysed = {}
         self.only = None      # replay filter (rule, fn, construct)
+        self.broken = []      # instance-floor failures (deferred)
 
     # -- rule bookkeeping -----------------------------------------------------------------------
     def rule(self, rid, text):
@@ -61,8 +62,10 @@ class Check:
         n = sum(1 for o in self.obs if o.rule == rule)
         self.floors[rule] = (n, minimum)
         if n < minimum:
-            raise AnalysisBroken(f'rule {rule}: only {n} instances examined, at least {minimum} expected '
-                                 f'(an anchor vanished or the rule no longer matches the code)')
+            # deferred: the other rules still run; if one of them reports a violation that verdict stands (exit 1), otherwise
+            # the run ends as analysis-broken (exit 2) -- never as a pass
+            self.broken.append(f'rule {rule}: only {n} instances examined, at least {minimum} expected '
+                               f'(an anchor vanished or the rule no longer matches the code)')
 
     def require(self, cond, msg):
         if not cond:
@@ -159,6 +162,10 @@ class Check:
         os.makedirs(EVID, exist_ok=True)
         json.dump(ev, open(os.path.join(EVID, f'{self.pid}.json'), 'w'), indent=1)
         nr = len(per_rule)
+        if self.broken and not new:
+            raise AnalysisBroken('; '.join(self.broken))
+        for b in self.broken:
+            print(f'NOTE property={self.pid}: {b}')
         print(f'{self.pid} [{self.tier}]: {len(self.obs)} obligations over {nr} rules; '
               f'{ev["coverage"]["discharged"]} discharged, {ev["coverage"]["assumed"]} assumed, '
               f'{len(kf)} known findings, {len(new)} violations; {wall:.1f}s')
